@@ -18,7 +18,6 @@ import (
 
 	sigtypes "github.com/chain4energy/c4e-chain/x/cfesignature/types"
 	"github.com/cosmos/cosmos-sdk/store/prefix"
-	sdk "github.com/cosmos/cosmos-sdk/types"
 	"pgregory.net/rapid"
 )
 
@@ -135,7 +134,7 @@ func TestC15(t *testing.T) {
 	rapid.Check(t, func(t *rapid.T) {
 		v := NewVestWorld(nil)
 		app := v.App
-		k := app.CfesignatureKeeper
+		_ = app.CfesignatureKeeper
 		sigStoreKey := app.GetKey(sigtypes.StoreKey)
 		rawLink := func(key string) ([]byte, bool) {
 			s := prefix.NewStore(v.Ctx.KVStore(sigStoreKey), []byte(sigtypes.PayloadLinkKey))
@@ -168,7 +167,11 @@ func TestC15(t *testing.T) {
 			var pan interface{}
 			func() {
 				defer func() { pan = notRapid(recover()) }()
-				resp, err = k.VerifySignature(sdk.WrapSDKContext(v.Ctx), &sigtypes.QueryVerifySignatureRequest{TargetAccAddress: addr, ReferenceId: ref})
+				// (asked as a client asks: through the application's gRPC query router)
+				r := &sigtypes.QueryVerifySignatureResponse{}
+				if err = QueryRouted(v.App, v.Ctx, "/chain4energy.c4echain.cfesignature.Query/VerifySignature", &sigtypes.QueryVerifySignatureRequest{TargetAccAddress: addr, ReferenceId: ref}, r); err == nil {
+					resp = r
+				}
 			}()
 			return resp, err, pan
 		}
